@@ -147,7 +147,7 @@ func init() {
 			"one ONCE call site per query; no LIMIT; function errors under ASYNC belong to C10/C19; SPIN completion before return is not required (only 'adds no column')",
 			"ASYNC calls appear as direct select-list items (the README rules out ASYNC inside FROM clauses)",
 		},
-		Floor:         []string{"q.plain", "q.async", "q.spinasync", "q.spin", "q.once", "q.await-async", "star", "where", "nested", "shape.union", "shape.cte", "shape.cte-shadow-twice", "shape.multidim", "arg.null", "page", "page.empty", "order.async", "distinct.async", "joinop.derived", "joinop.both", "consumed.where", "consumed.aggregate", "consumed.group", "consumed.join-on", "consumed.in-subquery", "consumed.fnarg", "consumed.cte", "consumed.order", "consumed.dual", "failwait.nested", "reexec.async-failure", "shape.cte-nested-twice", "builtin.async", "failwait", "lat.zero", "lat.yield", "lat.random", "lat.skewed", "lat.straggler", "table.empty", "imm.async", "imm.spin", "imm.spinasync", "imm.harness", "imm.harness-mixedcase", "imm.registered-late"},
+		Floor:         []string{"q.plain", "q.async", "q.spinasync", "q.spin", "q.once", "q.await-async", "star", "where", "nested", "shape.union", "shape.cte", "shape.cte-shadow-twice", "shape.multidim", "arg.null", "page", "page.empty", "order.async", "distinct.async", "joinop.derived", "joinop.both", "consumed.where", "consumed.aggregate", "consumed.group", "consumed.join-on", "consumed.in-subquery", "consumed.fnarg", "consumed.cte", "consumed.order", "consumed.dual", "failwait.nested", "reexec.async-failure", "shape.cte-nested-twice", "builtin.async", "failwait", "lat.zero", "lat.yield", "lat.random", "lat.skewed", "lat.straggler", "table.empty", "imm.async", "imm.spin", "imm.spinasync", "imm.harness", "imm.harness-mixedcase", "imm.registered-late", "imm.registered-after-plain", "q.async.if-branch", "shape.cte-union"},
 		MinNontrivial: 30,
 		Phases: []fw.Phase{
 			{Name: "ledger", N: func(t fw.Tier) int { return pick(t, 2500, 40000) }, Run: func(c *fw.Case) { c14Ledger(c, false) }},
@@ -164,10 +164,11 @@ func init() {
 }
 
 type c14Item struct {
-	qual  string
-	site  int32
-	arg   string
-	alias string
+	ifWrap bool // the call is the chosen branch of an IF
+	qual   string
+	site   int32
+	arg    string
+	alias  string
 }
 
 var c14Profiles = []string{"zero", "yield", "random", "skewed", "straggler"}
@@ -229,6 +230,8 @@ func c14Ledger(c *fw.Case, race bool) {
 	// a CTE named like the table it reads, and read twice (by FROM and, for
 	// every row, through the marker): its body still runs once
 	cteTwice := shape == "cte" && (force == "shape.cte-shadow-twice" || c.Idx%2 == 0)
+	// a CTE that both branches of a union read: its body still runs once
+	cteUnion := shape == "cte" && !cteTwice && (force == "shape.cte-union" || c.Idx%3 != 0)
 	mult := 1
 	if shape == "union" {
 		mult = 2
@@ -299,7 +302,11 @@ func c14Ledger(c *fw.Case, race bool) {
 		if arg == "z1" || arg == "nokey" {
 			feats = append(feats, "arg.null")
 		}
-		items = append(items, c14Item{qual: q, site: int32(i + 1), arg: arg, alias: fmt.Sprintf("a%d", i+1)})
+		ifWrap := q == "ASYNC" && !nested && byValue == "" && (c.Idx%25 == 7 || c.Chance(0.1))
+		if ifWrap {
+			feats = append(feats, "q.async.if-branch")
+		}
+		items = append(items, c14Item{qual: q, site: int32(i + 1), arg: arg, alias: fmt.Sprintf("a%d", i+1), ifWrap: ifWrap})
 		feats = append(feats, map[string]string{"": "q.plain", "ASYNC": "q.async", "SPINASYNC": "q.spinasync", "SPIN": "q.spin", "ONCE": "q.once", "AWAIT-ASYNC": "q.await-async"}[q])
 	}
 	star := force == "star" || c.Chance(0.2)
@@ -351,6 +358,10 @@ func c14Ledger(c *fw.Case, race bool) {
 			if awaited {
 				call = "AWAIT(" + call + ")"
 			}
+			if it.ifWrap {
+				// the condition holds on every row: the value is the call's
+				call = []string{"IF(true, " + call + ", 0)", "IF(rid >= 0, " + call + ", NULL)", "IF(1 > 2, 'no', " + call + ")"}[int(it.site)%3]
+			}
 			if q == "SPIN" || q == "SPINASYNC" {
 				calls = append(calls, call)
 			} else {
@@ -384,6 +395,8 @@ func c14Ledger(c *fw.Case, race bool) {
 				sql = "WITH a AS (" + sql + "), b AS (WITH z AS (SELECT 1 AS one FROM dual) SELECT * FROM a WHERE rid IN (SELECT rid FROM `<-a`)) SELECT * FROM b"
 			} else if cteTwice {
 				sql = "WITH t1 AS (" + sql + ") SELECT * FROM t1 WHERE rid IN (SELECT rid FROM `<-t1`)"
+			} else if cteUnion {
+				sql = "WITH c1 AS (" + sql + ") SELECT * FROM c1 UNION ALL SELECT * FROM c1"
 			} else {
 				sql = "WITH c1 AS (" + sql + ") SELECT * FROM c1"
 			}
@@ -392,6 +405,9 @@ func c14Ledger(c *fw.Case, race bool) {
 	}
 	if star {
 		feats = append(feats, "star")
+	}
+	if cteUnion {
+		feats = append(feats, "shape.cte-union")
 	}
 	if cteTwice && c.Idx%4 == 0 {
 		feats = append(feats, "shape.cte-nested-twice")
@@ -518,6 +534,10 @@ func c14Ledger(c *fw.Case, race bool) {
 	if mult == 2 {
 		want = append(append([]any{}, want...), want...)
 		expectedCalls *= 2
+	}
+	if cteUnion {
+		// the rows twice, the calls once
+		want = append(append([]any{}, want...), want...)
 	}
 	inPage := func(ui int) bool { return !page || ui >= pageOff && ui < pageOff+pageLim }
 	if page {
@@ -736,7 +756,7 @@ func waitCalls(base int64, expected int) {
 	}
 }
 
-var c14Immediates = []string{"SUM", "AVG", "MIN", "MAX", "COUNT", "FUSE", "DATERANGE", "CONSTANT", "GETVAR", "SETVAR", "RAISE", "RAISE_WHEN", "REPORT", "REPORT_WHEN", "TIMESTAMP", "TO_LOWER", "TO_UPPER", "VIMM", "VImmMixed", "vimmmixed"}
+var c14Immediates = []string{"SUM", "AVG", "MIN", "MAX", "COUNT", "FUSE", "DATERANGE", "CONSTANT", "GETVAR", "SETVAR", "RAISE", "RAISE_WHEN", "REPORT", "REPORT_WHEN", "TIMESTAMP", "TO_LOWER", "TO_UPPER", "VIMM", "VImmMixed", "vimmmixed", "vimmafterplain"}
 
 var c14LateCalls atomic.Int64
 
@@ -744,7 +764,7 @@ func c14Immediate(c *fw.Case) {
 	fn := c14Immediates[c.Idx%len(c14Immediates)]
 	q := []string{"ASYNC", "SPIN", "SPINASYNC"}[(c.Idx/len(c14Immediates))%3]
 	args := map[string]string{"SUM": "n1", "AVG": "n1", "MIN": "n1", "MAX": "n1", "COUNT": "n1", "FUSE": "obj", "DATERANGE": "'a', 'b'", "CONSTANT": "'c1'", "GETVAR": "'k'", "SETVAR": "'k', 1",
-		"RAISE": "'x'", "RAISE_WHEN": "false, 'x'", "REPORT": "'x'", "REPORT_WHEN": "false, 'x'", "TIMESTAMP": "", "TO_LOWER": "s1", "TO_UPPER": "s1", "VIMM": "n1", "VImmMixed": "n1", "vimmmixed": "n1"}[fn]
+		"RAISE": "'x'", "RAISE_WHEN": "false, 'x'", "REPORT": "'x'", "REPORT_WHEN": "false, 'x'", "TIMESTAMP": "", "TO_LOWER": "s1", "TO_UPPER": "s1", "VIMM": "n1", "VImmMixed": "n1", "vimmmixed": "n1", "vimmafterplain": "n1"}[fn]
 	doc := map[string]any{"t1": []any{map[string]any{"rid": 0.0, "n1": 1.0, "s1": "a", "obj": map[string]any{"k": 1.0}}, map[string]any{"rid": 1.0, "n1": 2.0, "s1": "b", "obj": map[string]any{"k": 2.0}}}}
 	armFault(0, faultNone)
 	if fn == "vimmmixed" {
@@ -765,6 +785,21 @@ func c14Immediate(c *fw.Case) {
 			c.Violate("error", fmt.Sprintf("an immediate function registered late cannot be called unqualified: %v", u.Describe()), map[string]any{"doc": doc, "function": fn})
 			return
 		}
+	}
+	if fn == "vimmafterplain" {
+		// a name that was a plain function first and is registered as immediate then
+		fn = fmt.Sprintf("VThenImm%dx%d", c.Idx, c.Intn(1000))
+		body := func(q *genql.Query, cur genql.Map, o *genql.FunctionOptions, args []any) (any, error) {
+			c14LateCalls.Add(1)
+			return args[0], nil
+		}
+		genql.RegisterFunction(fn, body)
+		if w := Run(val.CopyMap(doc), fmt.Sprintf("SELECT rid, ASYNC.%s(n1) AS v FROM t1", fn)); !w.OK() {
+			c.Violate("error", fmt.Sprintf("a plain function cannot be called with ASYNC: %v", w.Describe()), map[string]any{"doc": doc, "function": fn})
+			return
+		}
+		genql.RegisterImmediateFunction(fn, body)
+		c.Feature("imm.registered-after-plain")
 	}
 	lateBefore := c14LateCalls.Load()
 	sql := fmt.Sprintf("SELECT rid, %s.%s(%s) AS v FROM t1", q, fn, args)
@@ -794,7 +829,6 @@ func c14Immediate(c *fw.Case) {
 }
 
 var _ = sort.Strings
-
 
 // c14JoinOperand: ASYNC calls in the select list of a derived table that is an
 // operand of a join. When Exec returns every call has completed and its value
@@ -897,7 +931,6 @@ func c14JoinOperand(c *fw.Case) {
 	}
 }
 
-
 // c14Same compares a (possibly nested) result with the expected structure;
 // an empty inner result may come back as nil or as an empty array.
 func c14Same(got any, want any) bool {
@@ -924,7 +957,6 @@ func c14Same(got any, want any) bool {
 	}
 	return sameSelValue(got, want)
 }
-
 
 // c14Builtin: ASYNC applied to the library's own (non-immediate) built-in
 // functions over many rows with large payloads, so that the calls overlap; in
@@ -979,7 +1011,6 @@ func c14Builtin(c *fw.Case) {
 	}
 	c.Nontrivial(sql + fmt.Sprint(n, size, c.Idx))
 }
-
 
 // c14FailWait: a synchronous step fails on some row while background calls of
 // earlier rows are in flight. Exec reports the failure - and when it returns,
@@ -1047,7 +1078,6 @@ func c14FailWait(c *fw.Case) {
 		c.Nontrivial(sql + fmt.Sprint(k) + val.Canon(t.Array()))
 	}
 }
-
 
 // c14Consumed: an ASYNC call in the select list of a nested query (derived
 // table, CTE, joined derived table, IN sub-select) whose column the enclosing
@@ -1142,7 +1172,6 @@ func c14Consumed(c *fw.Case) {
 		c.Nontrivial(sql + "|" + val.Canon(t.Array()))
 	}
 }
-
 
 // c14ReexecFail: one Query kept and executed several times; in one of the
 // executions a background call fails. That execution reports the failure, as
